@@ -306,10 +306,16 @@ def evolving_scenarios(ctx, out):
         for phase in range(rng.randrange(1, 4)):
             # grow a SUPER class
             host = rng.choice([Base, Mid])
-            shape = rng.choice(['plain', 'bidir', 'containment', 'bidir-single'])
+            shape = rng.choice(['plain', 'bidir', 'containment', 'bidir-single', 'flagged-single'])
             nm = f'x{phase}'
             if shape == 'plain':
                 host.eStructuralFeatures.append(E.EReference(nm, Side, upper=rng.choice([1, -1])))
+            elif shape == 'flagged-single':
+                # a single-valued reference carrying one of the flags that do not change how it is stored
+                # (derived / transient / volatile / not changeable ... are kept in an ordinary slot when single-valued)
+                flag = rng.choice(['derived', 'transient', 'volatile', 'unsettable'])
+                host.eStructuralFeatures.append(E.EReference(nm, rng.choice([Side, Base]), **{flag: True}))
+                hist.append(['flag', nm, flag])
             elif shape == 'containment':
                 host.eStructuralFeatures.append(E.EReference(nm, rng.choice([Side, Base]), upper=rng.choice([1, -1]),
                                                              containment=True))
